@@ -426,7 +426,9 @@ func k7pairOnce(r *rng, a, b k7op, cross bool, wait time.Duration) ([4]int, bool
 
 func runK7flush(r *rng, n int) {
 	for i := 0; i < n && !tooManyHangs(); i++ {
-		s := newK7(r, 1)
+		// half of the runs over a transport that takes several Write calls per frame (and yields in
+		// between): a reply written outside the send lock lands inside another reply
+		s := newK7w(r, 1, r.chance(1, 2))
 		if s.walk(0, 0, 1, p9.ModeRegular|0644, "f") < 0 || s.call(0, 12, map[string]interface{}{"fid": uint64(1), "Flags": uint64(2)}) != 13 ||
 			s.walk(0, 0, 2, p9.ModeRegular|0644, "o") < 0 {
 			s.close()
@@ -815,6 +817,42 @@ func runK7scen(r *rng, n int) {
 			}
 			s.close()
 			emit("k7scen name=rename-dir-while-child-closing => renamed=%d uac=%d", ren, uac)
+		}
+		// a panic inside a read-class backend call: answered EFAULT, and the read locks it ran under are
+		// released – a write-class request on the same file and a rename are still answered
+		{
+			s := newK7(r, 1)
+			s.walk(0, 0, 1, p9.ModeRegular|0644, "f")
+			s.call(0, 12, map[string]interface{}{"fid": uint64(1), "Flags": uint64(2)})
+			s.be.mu.Lock()
+			s.be.panicOn = []string{"ReadAt", "GetAttr", "WriteAt"}[r.intn(3)]
+			meth := s.be.panicOn
+			s.be.mu.Unlock()
+			var rt uint8
+			switch meth {
+			case "ReadAt":
+				rt = s.call(0, 116, map[string]interface{}{"fid": uint64(1), "Count": uint64(8)})
+			case "GetAttr":
+				rt = s.call(0, 24, map[string]interface{}{"fid": uint64(1)})
+			default:
+				rt = s.call(0, 118, map[string]interface{}{"fid": uint64(1), "Data": []byte("x")})
+			}
+			efault := 0
+			if rt == 7 {
+				efault = 1
+			}
+			setattr, renamed := 0, 0
+			if s.call(0, 26, map[string]interface{}{"fid": uint64(1)}) == 27 {
+				setattr = 1
+			}
+			if s.call(0, 74, map[string]interface{}{"OldDirectory": uint64(0), "OldName": "f", "NewDirectory": uint64(0), "NewName": "g"}) == 75 {
+				renamed = 1
+			}
+			if setattr == 0 || renamed == 0 {
+				noteHang()
+			}
+			s.close()
+			emit("k7scen name=panic-in-a-read-class-call-keeps-serving => efault=%d setattr=%d renamed=%d", efault, setattr, renamed)
 		}
 		// the entry itself is renamed while the last reference to it is being dropped (its Close is held
 		// inside the backend): the dying reference is still registered under its name, and must be
